@@ -87,6 +87,9 @@ class Adapter(EnvAdapter):
         for (n, e, d, a, k, eps) in ((12, 14, 2, 2, 2, 600), (12, 16, 3, 2, 2, 400), (13, 16, 2, 2, 2, 300), (14, 18, 2, 3, 2, 300),
                                      (20, 36, 4, 2, 5, 300)):
             out.append(c(f"n{n}e{e}d{d}a{a}k{k}_gen", n, e, d, a, k, 5, eps, 0, props=["C10"], policies=["random"]))
+        # a single agent; five agents
+        out.append(c("n8a1k3_t7", 8, 12, 4, 1, 3, 7, 10, 11, probe_cap=8))
+        out.append(c("n30a5k3_t7", 30, 60, 5, 5, 3, 7, 6, 11, probe_every=2, probe_cap=60))
         return out
 
     def make(self, cfg):
